@@ -65,11 +65,31 @@ DESC = {
  'C18-K': 'a `shell = True` worker is signalled with `os.killpg`',
  'C19-K': '`if watcher.autostart or self._running` in `_start_watchers`',
  'C20-K': 'the line prefix is cached per formatted time (not per pid)',
+ 'C01-L': '`Watcher.set_opt` loses `@synchronized`: a `set numprocesses` refused as conflicting has already stored the value',
+ 'C02-L': '`Arbiter.stop()` loses `@synchronized("arbiter_stop")`: a quit runs beside the start-up it interrupts',
+ 'C03-L': '`remove_expired_processes` pops the expired workers from the table before it kills them (no stop signal, no SIGKILL)',
+ 'C04-L': 'a vetoing `before_signal` hook also withholds the final SIGKILL',
+ 'C05-L': '`self.loop.stop()` at once instead of `add_callback(self.loop.stop)` (the reply to a waiting quit / restart is never produced)',
+ 'C06-L': '`Controller.stop()` no longer flushes the stream before closing it (the reply to a waiting whole-arbiter restart is dropped)',
+ 'C07-L': 'the child closes the original descriptor after `dup2(stdin_socket_fd, 0)`',
+ 'C08-L': '`add_callback` instead of `add_callback_from_signal` in the signal handler (an idle daemon is not woken)',
+ 'C09-L': 'graceful reload kills "exactly the old generation" without the `manage_processes` pass (a zombie gets a kill event and no reap event)',
+ 'C10-L': '`kill_process` waits until the redirector has read the pipes to EOF',
+ 'C11-L': 'the last `except:` of `dispatch` clears `_exclusive_running_command`',
+ 'C12-L': 'command-line logging options are stored in `arbiter._cfg` (every reloadconfig believes `[circus]` changed)',
+ 'C13-L': 'the deprecated `$WID` replacement applied to the final argument vector (`$WIDTH` becomes `1TH`)',
+ 'C14-L': '`signal.Signals(signum).name` in the debug line of a vetoed signal (raises for real-time signals)',
+ 'C15-L': '`rm` with `nostop` closes the output channels of the workers it leaves running',
+ 'C16-L': 'one `isinstance(default, bool)` branch for boolean options (`close_child_*` have no default entry)',
+ 'C17-L': 'stderr opened as `STDOUT` when both channels are configured with the same stream object',
+ 'C18-L': '`validate_option` accepts `stop_signal` by name for `add`, which stores the string',
+ 'C19-L': '`priority` parsed only when `str.isdigit()` (negative priorities become 0)',
+ 'C20-L': 'the redirector handler looks its writer up once, at construction (`set stdout_stream.*` on a running watcher)',
  'C20-J': 'rollover closes the file unconditionally and no longer reopens a file that is not open (failure between close and reopen is fatal)',
 }
 letters = sys.argv[1:] or ['I', 'J']
 names = sorted(n for n in os.listdir(os.path.join(HERE, 'seeded')) if n[-1] in letters and n[-2] == '-')
-FIRST = set('C04-K C06-K C07-K C12-K C13-K C15-K C16-K C17-K C01-I C02-I C04-I C04-J C06-J C07-J C13-I C15-J C16-I C16-J C17-I C18-I C18-J C19-I'.split())
+FIRST = set('C03-L C16-L C11-L C04-K C06-K C07-K C12-K C13-K C15-K C16-K C17-K C01-I C02-I C04-I C04-J C06-J C07-J C13-I C15-J C16-I C16-J C17-I C18-I C18-J C19-I'.split())
 print('| seed | change | first | now caught by |\n|---|---|---|---|')
 for n in names:
     m = json.load(open(os.path.join(HERE, 'seeded', n, 'meta.json')))
